@@ -34,6 +34,10 @@ def families(facts):
                 continue        # SQL calls: per-function families (C09) + the foreign-namespace family below
             fams.append(f"text[{d}][{k}]")
         fams.append(f"text[{d}][Call:<foreign namespace>]")
+        if d != "odata":
+            for fn, (lo, hi) in O.ARITY_TABLE.items():
+                for n in range(lo, hi + 1):
+                    fams.append(f"textcall[{d}][{fn}/{n}]")
     for b in O.BACKENDS:
         for k in facts.kinds:
             if k in Q.OP_KINDS:
@@ -56,11 +60,7 @@ def known_text(dkey, kind, clause, info):
         return True
     if "C12-sql-namespaced-call" in ids and dkey in unhandled and kind == "Call:<foreign namespace>":
         return True
-    # regions recorded under C09 (same handlers)
-    if dkey == "sqlite" and kind == "Duration" and clause == "post.wf":
-        return "C09-sqlite-duration" in ids or True
-    if kind == "Duration" and clause == "post.wf" and (info or {}).get("template") == "":
-        return True
+    # (regions recorded under C09 for the same handlers are applied by C09.run_one through C09.KNOWN)
     return False
 
 
@@ -74,7 +74,7 @@ def run_family(facts, fam, tier):
     if fam.startswith("text["):
         inner = fam[len("text["):-1]
         dkey, kind = inner.split("][")
-        C09.KNOWN = []
+        C09.KNOWN = [f for f in KNOWN if f['id'].startswith('C09-')]
         cls = Q.VISITORS[dkey][0]
         if kind in facts.kinds and kind not in Q.handled_kinds(facts, cls):
             # no handler: NodeVisitor.visit falls through to generic_visit, whose result is None (proved in C16: the
@@ -107,6 +107,12 @@ def run_family(facts, fam, tier):
             out.append({"name": f"C12:{dkey}:{kind}:excluded", "clause": "excluded", "status": "discharged", "seconds": 0.0,
                         "backend": "known-finding", "reason": "every obligation of this family lies in a recorded finding's region"})
         return out
+    if fam.startswith("textcall["):
+        dkey, what = fam[len("textcall["):-1].split("][")
+        C09.KNOWN = [f for f in KNOWN if f['id'].startswith('C09-')]
+        rs = C09.run_one(c, facts, dkey, True, what, timeout, "C12", TEXT_CLAUSES + ("hole.data",))
+        return [r for r in rs if r["clause"] in TEXT_CLAUSES
+                and not (r["status"] != "discharged" and known_text(dkey, "Call:" + what, r["clause"], r.get("info")))]
     if fam.startswith("orm[") or fam.startswith("ormcall["):
         return O.run_family(c, facts, fam, timeout, "C12", KNOWN)
     raise ValueError(fam)
